@@ -156,6 +156,8 @@ pub struct BddRun<'a, T: IteTable<'a, BddPtr<'a>> + Default> {
     pub n: usize,
     pub new_vars: usize,
     pub max_new_vars: usize,
+    /// set when a variable added at run time did not get a fresh label at the end of the order
+    pub label_fault: Option<String>,
 }
 
 impl<'a, T: IteTable<'a, BddPtr<'a>> + Default> BddRun<'a, T> {
@@ -170,6 +172,7 @@ impl<'a, T: IteTable<'a, BddPtr<'a>> + Default> BddRun<'a, T> {
             n: n0,
             new_vars: 0,
             max_new_vars: 2,
+            label_fault: None,
         }
     }
 
@@ -294,9 +297,16 @@ impl<'a, T: IteTable<'a, BddPtr<'a>> + Default> BddRun<'a, T> {
                     return None;
                 }
                 let (lbl, ptr) = b.new_var(*p);
-                if lbl.value_usize() != self.n {
-                    // the documented contract: the new label is placed at the end of the order and
-                    // is a fresh label; report through the truth table (it will mismatch)
+                let seq: Vec<usize> = b.order().in_order_iter().map(|x| x.value_usize()).collect();
+                if lbl.value_usize() != self.n || seq.last() != Some(&self.n) || seq.len() != self.n + 1 {
+                    // documented contract: a fresh label, placed at the end of the current order
+                    self.label_fault = Some(format!(
+                        "new_var on a builder with {} variables returned label {} and the order is now {:?} (expected the fresh label {} appended at the end)",
+                        self.n,
+                        lbl.value(),
+                        seq,
+                        self.n
+                    ));
                 }
                 let v = lbl.value_usize();
                 self.n += 1;
